@@ -232,6 +232,22 @@ def warm_up(sess, rng, mh, beta):
     sess.rate(mh, teams, **kw)
     if rng.random() < 0.5:
         sess.predict(rng.choice(["win", "draw", "rank"]), mh, teams)
+    if rng.random() < 0.3:
+        reconfigure(sess, rng, mh)
+
+
+def reconfigure(sess, rng, mh):
+    """The owner assigns a public attribute of a model that has already been used: from then on that is its configuration."""
+    what = rng.choice(["gamma", "gamma", "tau", "limit_sigma", "kappa"])
+    if what == "gamma":
+        cur = sess.gamma_names.get(id(mh.m.gamma), "?")
+        sess.set_model_attr(mh, "gamma", sess.gamma_callable(mh, rng.choice([g for g in ["default", "one", "zero", "big", "probe"] if g != cur])))
+    elif what == "tau":
+        sess.set_model_attr(mh, "tau", mh.m.beta * rng.choice([0.02, 0.3, 1.0]))      # stays positive: sigma 0 may have been generated for it
+    elif what == "limit_sigma":
+        sess.set_model_attr(mh, "limit_sigma", not mh.m.limit_sigma)
+    else:
+        sess.set_model_attr(mh, "kappa", mh.m.kappa * rng.choice([0.1, 0.5]))
 
 
 def rate_campaign(sess, rng, count, kinds=KINDS, max_teams=8, max_players=8, simple=False):
@@ -259,6 +275,11 @@ def rate_campaign(sess, rng, count, kinds=KINDS, max_teams=8, max_players=8, sim
             if multi:
                 t = rng.choice(multi)
                 t[rng.randrange(len(t))].sigma = rng.choice([0.0, 0])
+        if rng.random() < 0.06:   # a player whose sigma is exactly what another's becomes once tau is added (same mu)
+            ps = [p for t in teams for p in t]
+            if len(ps) >= 2 and eff_tau > 0:
+                a, b = rng.sample(ps, 2)
+                b.mu, b.sigma = a.mu, math.sqrt(a.sigma * a.sigma + eff_tau * eff_tau)
         if rng.random() < 0.12:   # value-identical line-ups (different objects)
             k = rng.randrange(len(teams))
             for i in range(len(teams)):
@@ -400,6 +421,28 @@ def predict_campaign(sess, rng, count, kinds=KINDS, max_teams=8, max_players=8):
 
 
 # ============================================================================= relational groups
+def coincide(rng, vals, tau):
+    """Exact coincidences between different players or teams (in place): value-identical teams apart from each other, a player
+    whose sigma is exactly what another's becomes once tau is added, a player equal to another team's member."""
+    r = rng.random()
+    n = len(vals)
+    if r < 0.15 and n >= 2:
+        i, k = rng.sample(range(n), 2)
+        vals[i] = list(vals[k])
+    elif r < 0.30:
+        slots = [(i, j) for i in range(n) for j in range(len(vals[i]))]
+        if len(slots) >= 2:
+            (i, j), (k, l) = rng.sample(slots, 2)
+            mu, sg = vals[i][j]
+            t = tau if tau > 0 else sg * 0.75
+            vals[k][l] = (mu, math.sqrt(sg * sg + t * t))
+    elif r < 0.38:
+        slots = [(i, j) for i in range(n) for j in range(len(vals[i]))]
+        if len(slots) >= 2:
+            (i, j), (k, l) = rng.sample(slots, 2)
+            vals[k][l] = vals[i][j]
+
+
 def random_vals(rng, shape, beta, tau_pos=False):
     return [[(pick_mu(rng, beta), pick_sigma(rng, beta, tau_pos)) for _ in range(sz)] for sz in shape]
 
@@ -534,6 +577,8 @@ def perm_groups(sess, rng, count, prop, ops=("rate",), kinds=KINDS, max_teams=6,
         shape = pick_shape(rng, max_teams, 3)
         n = len(shape)
         vals = random_vals(rng, shape, beta, mh.m.tau > 0)
+        coincide(rng, vals, mh.m.tau)
+        shape = [len(t) for t in vals]
         cls = weak_order(rng, n)
         okw = rng.choice(all_encodings(rng, cls)) if rng.random() < 0.6 else encode_order(rng, cls)[0]
         sel = "ranks" if "ranks" in okw else "scores" if "scores" in okw else None
@@ -887,10 +932,17 @@ def model_groups(sess, rng, count):
                 if i != k and rng.random() < 0.5:
                     vals[i] = list(vals[k])
         okw, _ = encode_order(rng, weak_order(rng, len(shape)))
+        used = rng.random() < 0.3      # the same question to models that have been used and then given this gamma by assignment
         for op in ["rate", "win", "draw", "rank"]:
             gid = GID.new("C19", op)
             for i, kind in enumerate(KINDS):
-                mh = sess.model(kind, gamma=g, **params)
+                if used:
+                    mh = sess.model(kind, gamma=rng.choice([x for x in ["default", "one", "big"] if x != g]), **params)
+                    wv = random_vals(rng, pick_shape(rng, 3, 2), beta, params.get("tau", 1.0) > 0)
+                    sess.rate(mh, make_teams(mh, wv))
+                    sess.set_model_attr(mh, "gamma", sess.gamma_callable(mh, g))
+                else:
+                    mh = sess.model(kind, gamma=g, **params)
                 if op == "rate":
                     sess.rate(mh, make_teams(mh, vals), group=gid, role="model" if i else "base", **okw)
                 else:
@@ -1275,6 +1327,28 @@ def saturated_tie_perms(sess, rng, prop, ops, kinds=KINDS):
                             pv = [vals[tp[k] - 1] for k in range(3)]
                             aux = [list(tp), [list(range(1, len(t) + 1)) for t in pv]]
                             sess.predict(op, mh, make_teams(mh, pv), group=gid, role="perm", aux=aux)
+
+
+def integer_grid(sess, rng, ops, kinds=KINDS):
+    """Every three-team game whose team totals are small whole numbers, negative ones included (ratings kept as round
+    numbers are common, and whole numbers are where hashing, `is`, int/float and sign conventions have their special cases)."""
+    import itertools
+    grid = [-2.0, -1.0, 0.0, 1.0, 3.0]
+    for kind in kinds:
+        sess.reset()
+        mh = sess.model(kind)
+        sg = rng.choice([1.0, 2.0, 0.5])
+        for k, tri in enumerate(itertools.product(grid, repeat=3)):
+            if k % 25 == 0:
+                sess.reset()
+                mh = sess.model(kind)
+            if rng.random() < 0.3:      # the same totals from two members
+                vals = [[(m - 1.0, sg), (1.0, sg)] for m in tri]
+            else:
+                vals = [[(int(m) if rng.random() < 0.3 else m, sg)] for m in tri]
+            teams = make_teams(mh, vals)
+            for op in ops:
+                sess.predict(op, mh, teams)
 
 
 def api_groups(sess):
